@@ -61,6 +61,10 @@ int main(int argc, char** argv)
 			for (size_t cut = 0; cut < doc.size(); cut++) { Var v = Json::decode(doc.substr(0, cut).c_str()); if (v.ok()) { printf("REPRODUCED prefix of %d characters of document %u accepted\n", (int)cut, d); return 1; }
 				XdlParser parser; parser.parse(doc.substr(0, cut).c_str()); parser.parse(doc.substr(cut).c_str()); parser.parse(" "); Var w = parser.value();
 				if (!(w == whole) || !w.ok()) { printf("REPRODUCED feeding document %u in two chunks cut at %d differs from feeding it whole\n", d, (int)cut); return 1; } } } }
+		// decode then encode (compact JSON) gives the same text back: values following other values in arrays, empty strings, nested objects
+		{ const char* docs2[] = { "[1,{\"a\":2}]", "[\"abc\",\"\"]", "[12,\"\",3]", "[true,{\"k\":[\"x\",\"\",{}]},\"\",null]", "{\"o\":{\"b\\u0041\":1}}", "{\"k\\u0041\":[\"\\u0042\"]}", "[\"z\",{},[],\"\"]" };
+		  const char* want2[] = { "[1,{\"a\":2}]", "[\"abc\",\"\"]", "[12,\"\",3]", "[true,{\"k\":[\"x\",\"\",{}]},\"\",null]", "{\"o\":{\"bA\":1}}", "{\"kA\":[\"B\"]}", "[\"z\",{},[],\"\"]" };
+		  for (unsigned i = 0; i < sizeof(docs2) / sizeof(docs2[0]); i++) { Var v = Json::decode(docs2[i]); String back = v.ok() ? Json::encode(v) : String("(invalid)"); if (back != want2[i]) { printf("REPRODUCED Json::decode(%s) re-encodes as %s\n", docs2[i], *back); return 1; } } }
 		// the JSON two-character escapes
 		{ Var v = Json::decode("[\"\\\" \\\\ \\/ \\b \\f \\n \\r \\t\"]"); if (!v.ok() || v.length() != 1 || std::string(*v[0].toString()) != "\" \\ / \b \f \n \r \t") { printf("REPRODUCED JSON escapes do not decode to their characters\n"); return 1; } }
 		// floats and doubles come back bit-exact in exact mode: neighbours of powers of 2 and 10, and a sweep of bit patterns
